@@ -1,0 +1,30 @@
+//go:build verif
+
+package tax
+
+// Contracts for the goblvc verifier (see /verif/DESIGN.md). Comments only.
+//
+// ---- C12: the rate value applied on a date
+//
+//@ pred sharesTag(a []cbc.Key, b []cbc.Key) bool = exists i int, j int :: 0 <= i && i < len(a) && 0 <= j && j < len(b) && a[i] == b[j]
+//@ pred extContains(em Extensions, other Extensions) bool = len(em) != 0 && (forall k cbc.Key :: has(other, k) ==> has(em, k) && em[k] == other[k])
+//@ pred applies(v *RateValueDef, tags []cbc.Key, ext Extensions) bool = (len(v.Tags) == 0 || sharesTag(v.Tags, tags)) && (len(v.Ext) == 0 || extContains(ext, v.Ext))
+// in force: no start date, or a start date on or before the tax date ("a value taking effect on its start date itself")
+//@ pred inForce(v *RateValueDef, d cal.Date) bool = v.Since == nil || !validDate(v.Since.Date) || dateLE(v.Since.Date, d.Date)
+//@ pred valuesOK(r *RateDef) bool = forall i int :: 0 <= i && i < len(r.Values) ==> r.Values[i] != nil
+//
+//@ func (rv *RateValueDef) hasAnyTag(tags) (r)
+//@   requires rv != nil
+//@   ensures r <==> sharesTag(rv.Tags, tags)
+//@   loop 1 invariant forall i int, j int :: 0 <= i && i < idx && 0 <= j && j < len(tags) ==> rv.Tags[i] != tags[j]
+//@   loop 2 invariant forall j int :: 0 <= j && j < idx ==> rv.Tags[idx1] != tags[j]
+//
+//@ func (em Extensions) Contains(other) (r)
+//@   ensures r <==> extContains(em, other)
+//@   loop 1 invariant forall k cbc.Key :: $visited[k] ==> has(em, k) && em[k] == other[k]
+//
+//@ func (r *RateDef) Value(date, tags, ext) (rv)
+//@   requires r != nil && valuesOK(r)
+//@   ensures [none] rv == nil ==> (forall i int :: 0 <= i && i < len(r.Values) ==> !(applies(r.Values[i], tags, ext) && inForce(r.Values[i], date)))
+//@   ensures [first] rv != nil ==> (exists i int :: 0 <= i && i < len(r.Values) && r.Values[i] == rv && applies(rv, tags, ext) && inForce(rv, date) && (forall j int :: 0 <= j && j < i ==> !(applies(r.Values[j], tags, ext) && inForce(r.Values[j], date))))
+//@   loop 1 invariant forall j int :: 0 <= j && j < idx ==> !(applies(r.Values[j], tags, ext) && inForce(r.Values[j], date))
